@@ -7,7 +7,7 @@ witness chain reaches an object reachable from the protected parameter.
 '''
 import ast
 
-from ..astutil import txt, call_name, receiver, dotted, walk_local
+from ..astutil import txt, call_name, receiver, dotted, walk_local, calls_in
 from ..loader import AnalysisError
 from .. import effects
 
@@ -25,6 +25,55 @@ def make_analyzer(program, max_depth=4):
                             dd_params=ddp, index_types=idx)
 
 
+def _builder_only(program, cinfo, meth):
+    '''A method that a change ADDED to a result class (its qualified name
+    is not in the frozen list of the reference tree) and that the package
+    calls, but only on an object under construction: `self` of another
+    builder-only method, or a local that the calling function has just built
+    with the constructor of the class.  Such a method fills the result
+    before anybody can look at it; it is not one of the "looking" entry
+    points (a call from one of those is still followed, and reported
+    there).'''
+    from ..inline import reference_functions
+    known = reference_functions().get(cinfo.module.relpath, ())
+    if f'{meth.qual.split(":")[-1]}' in known or meth.qual in known or \
+            f'{cinfo.name}.{meth.name}' in known:
+        return False
+    sites = 0
+    for func in program.all_functions():
+        for call in calls_in(func.node):
+            if not (isinstance(call.func, ast.Attribute) and
+                    call.func.attr == meth.name):
+                continue
+            recv = call.func.value
+            if not isinstance(recv, ast.Name):
+                return False
+            if recv.id == 'self' and func.cls is not None and \
+                    func is not meth and func.name != '__init__' and (
+                        func.cls is cinfo or cinfo in program.subclasses(
+                            func.cls) or func.cls in program.subclasses(
+                                cinfo)):
+                # delegation between methods of the class: judged with the
+                # delegating method
+                if not _builder_only(program, func.cls, func):
+                    return False
+                sites += 1
+                continue
+            built = [n for n in walk_local(func.node) if isinstance(
+                n, ast.Assign) and any(isinstance(t, ast.Name) and
+                                       t.id == recv.id for t in n.targets)]
+            if len(built) != 1 or not isinstance(built[0].value, ast.Call):
+                return False
+            res = program.resolve_name_expr(func.module,
+                                            built[0].value.func, func)
+            if not (hasattr(res, 'methods') and (
+                    res is cinfo or res in program.subclasses(cinfo) or
+                    cinfo in program.subclasses(res))):
+                return False
+            sites += 1
+    return sites > 0
+
+
 def entry_points(program):
     '''[(FuncInfo, protected param index, family)]'''
     out = []
@@ -32,7 +81,8 @@ def entry_points(program):
     test = program.cls(TEST)
     for cinfo in program.subclasses(tres):
         for meth in cinfo.methods.values():
-            if meth.name != '__init__' and meth.params[:1] == ['self']:
+            if meth.name != '__init__' and meth.params[:1] == ['self'] and \
+                    not _builder_only(program, cinfo, meth):
                 out.append((meth, 0, 'result-method'))
     for cinfo in program.subclasses(test):
         for meth in cinfo.methods.values():
